@@ -2341,6 +2341,9 @@ class Interp:
             return r
         # in-place methods on tracked objects
         if fn.op == "attr" and target is None and \
+                fn.args[1] == "setflags":
+            return result_term     # array flags: the values stay the values
+        if fn.op == "attr" and target is None and \
                 fn.args[1] in MUTATING_METHODS:
             new = T("mut", recv, fn.args[1], tuple(args))
             ru = self.unname(recv)
@@ -2514,7 +2517,14 @@ class Interp:
         self._note_narrowing(newf, live, out)
         self.inlined_envs.append((target, newf.env))
         self._propagate_mutations(target, argenv, newf, frame, live, node)
-        return self._join_returns(newf, live)
+        out_v = self._join_returns(newf, live)
+        if any(d in ("lru_cache", "cache") for d in target.decorators) and \
+                out_v.op not in ("const", "enum"):
+            # a memoised function: its value reads like the body's value, but
+            # it is one *shared* object for all callers (rules about in-place
+            # writes look for the marker)
+            out_v = T("named", "memo:" + target.qualname, out_v)
+        return out_v
 
     @staticmethod
     def _mutation_of(v: T, init: T, depth: int = 0) -> bool:
